@@ -1,7 +1,6 @@
 package hx
 
 import (
-	"sync/atomic"
 	"bytes"
 	"context"
 	"encoding/json"
@@ -12,6 +11,8 @@ import (
 	"net/http/httptest"
 	"net/url"
 	"strings"
+	"sync/atomic"
+	"time"
 
 	"github.com/nautilus/gateway"
 )
@@ -334,7 +335,32 @@ func responseShape(body []byte) (shape string, entries []map[string]interface{})
 	return fmt.Sprintf("JSON %T", v), nil
 }
 
+// idleCache: a caching gateway with a short lifetime of its entries answers a request, is left alone for several
+// lifetimes (the cache cleans up meanwhile) and answers again
+func idleCache(c *Ctx, i int) CaseResult {
+	res := CaseResult{ID: fmt.Sprintf("gen:%d", i), Features: []string{"idle-plan-cache"}, Nontrivial: true}
+	store := GenStore(rand.New(rand.NewSource(5)), false)
+	f, err := NewFed(FixedFed(), store, gateway.WithQueryPlanCache(gateway.NewAutomaticQueryPlanCache().WithCacheTTL(25*time.Millisecond)))
+	if err != nil {
+		return res
+	}
+	for k, q := range []string{`{"query":"{ me { firstName } }"}`, `{"query":"{ allUsers { lastName } }"}`, `{"query":"{ me { firstName } }"}`} {
+		hc := HTTPCase{Method: "POST", Target: "/graphql", ContentType: "application/json", Body: q}
+		rec, p := hc.Serve(f.GW)
+		if p != nil || rec.Code != 200 || !strings.Contains(rec.Body.String(), `"data"`) {
+			res.Fails = append(res.Fails, Failure{Channel: "L0.http", Classifier: "unclassified", What: fmt.Sprintf("request %d to a caching gateway that had been idle is not answered with data (status %d, panic %v)", k, rec.Code, p), Input: hc,
+				Observed: truncate(rec.Body.String(), 300)})
+			return res
+		}
+		time.Sleep(90 * time.Millisecond)
+	}
+	return res
+}
+
 func (c15) Run(c *Ctx, i int) CaseResult {
+	if i >= len(c15Corpus) && i%60 == 17 {
+		return idleCache(c, i)
+	}
 	var hc HTTPCase
 	id := ""
 	if i < len(c15Corpus) {
